@@ -219,6 +219,16 @@ def family_options(m, tier, add_bench, open_mod, close_mod):
     add_bench(m, g, 8, "threads_n_zero_one", form="bencher", options=[("threads", "[crate::rt::ncpu(), 0, 1]"), ("sample_count", "2"), ("sample_size", "1")])
     add_bench(m, g, 8, "threads_empty", form="bencher", options=[("threads", "[]"), ("sample_count", "2")])
     add_bench(m, g, 8, "threads_empty_args", args="strs", options=[("threads", "[]"), ("sample_count", "1")])
+    # every accepted spelling of `threads`
+    add_bench(m, g, 8, "threads_true", form="bencher", options=[("threads", "true"), ("sample_count", "1"), ("sample_size", "1")])
+    add_bench(m, g, 8, "threads_false", form="bencher", options=[("threads", "false"), ("sample_count", "2")])
+    add_bench(m, g, 8, "threads_three", form="bencher", options=[("threads", "3"), ("sample_count", "4")])
+    add_bench(m, g, 8, "threads_range", form="bencher", options=[("threads", "0..=2"), ("sample_count", "2"), ("sample_size", "1")])
+    add_bench(m, g, 8, "threads_vec", form="bencher", options=[("threads", "vec![3, 1, 3]"), ("sample_count", "3")])
+    gtt = open_mod(m, g, 8, "threads_true_group", group={"options": [("threads", "true"), ("sample_count", "1"), ("sample_size", "1")]})
+    add_bench(m, gtt, 12, "inherits_true", form="bencher")
+    add_bench(m, gtt, 12, "own_false", form="bencher", options=[("threads", "false")])
+    close_mod(m, 8)
     ge = open_mod(m, g, 8, "empty_threads_group", group={"options": [("threads", "[]")]})
     add_bench(m, ge, 12, "inherits_empty", form="bencher")
     close_mod(m, 8)
